@@ -32,6 +32,9 @@ type fieldOptionsTrieNode struct {
 	// registeredDescendantCount records how many times a descendant of this node
 	// is registered. This field is irrelevant to traversal or the trie structure.
 	registeredDescendantCount int
+	// removedDescendantCount records how many descendants of this node are going to
+	// be removed. This field is irrelevant to traversal or the trie structure.
+	removedDescendantCount int
 }
 
 // insert inserts a path into the trie. The caller should
@@ -89,11 +92,35 @@ func (p *fieldOptionsTrie) registerDescendant(descendant []int32) {
 	}
 }
 
+// registerRemovedDescendant finds if there is an ancestor of the provided
+// path and increments this ancestor's counter of removed descendants if it exists.
+func (p *fieldOptionsTrie) registerRemovedDescendant(descendant []int32) {
+	trie := p
+	for i, element := range descendant {
+		nodes := *trie
+		pos, found := sort.Find(len(nodes), func(i int) int {
+			return int(element - nodes[i].value)
+		})
+		if !found {
+			return
+		}
+		ancestor := nodes[pos]
+		descendantContinues := i != len(descendant)-1
+		if ancestor.isPathEnd && descendantContinues {
+			ancestor.removedDescendantCount += 1
+			return
+		}
+		trie = &ancestor.children
+	}
+}
+
 // indicesWithoutDescendant returns the location indices of
 func (p *fieldOptionsTrie) indicesWithoutDescendant() []int {
 	locationIndices := []int{}
 	walkTrie(*p, func(node *fieldOptionsTrieNode) {
-		if node.isPathEnd && node.registeredDescendantCount == 0 {
+		// Only a FieldOptions that loses all of its option locations is empty afterwards. One that never
+		// had any (i.e. [default = 1], [json_name = "x"], which are not options) is left alone.
+		if node.isPathEnd && node.registeredDescendantCount == 0 && node.removedDescendantCount > 0 {
 			locationIndices = append(locationIndices, node.locationIndex)
 		}
 	})
